@@ -203,3 +203,15 @@ Definition e2e_module : module :=
     {| p_own := base_inputs 2; p_deps := [0%nat]; p_cacheable := true |};    (* a imports b *)
     {| p_own := base_inputs 3; p_deps := [0%nat]; p_cacheable := true |};    (* b imports c *)
     {| p_own := base_inputs 4; p_deps := []; p_cacheable := true |} ].       (* c *)
+
+(* the kinds collect.go / fingerprint.go put into the manifest: fixed = true is the code
+   that exists now (embedded files by content, the C files named by LLGoFiles, the flags the
+   LLGoFiles prefix expands to, sha256 of every on-disk source file); fixed = false is the
+   tree before the four C13 fixes *)
+Definition tree_manifest (fixed : bool) : list kind :=
+  [KPkgId; KGoFiles; KAltGoFiles; KOtherFiles] ++
+  (if fixed then [KEmbedFiles; KSideCFiles; KSameStatContent] else []) ++
+  [KTags; KRewrites; KOptLevel; KAbiMode; KEnvListed] ++
+  (if fixed then [KEnvExpand] else []) ++
+  [KTarget; KToolchain; KCompiler; KDeps].
+
